@@ -14,8 +14,19 @@ pub const R_CONVERGE: u64 = 60;
 struct Mon<'a> {
     out: &'a Out,
     msgs: u64,
+    /// start hash of the last proof request sent to each peer
+    req_start: std::collections::HashMap<ckb_network::PeerIndex, ckb_types::packed::Byte32>,
 }
 impl<'a> Hook for Mon<'a> {
+    fn on_sent(&mut self, _w: &mut World, sent: &super::super::net::Sent) {
+        if super::super::net::P::of(sent.proto) == Some(super::super::net::P::Lc) {
+            if let Ok(m) = ckb_types::packed::LightClientMessageReader::from_compatible_slice(&sent.data) {
+                if let ckb_types::packed::LightClientMessageUnionReader::GetLastStateProof(r) = m.to_enum() {
+                    self.req_start.insert(sent.peer, r.start_hash().to_entity());
+                }
+            }
+        }
+    }
     fn after_deliver(&mut self, _w: &mut World, _pi: usize, _m: &Resp, _o: &Outcome) {
         self.msgs += 1;
         self.out.eval(1);
@@ -94,7 +105,7 @@ pub fn scenario(seed: u64, k: u64, out: &Out) {
     }
     let desc = json!({"seed": seed, "scenario": k, "pow": format!("{:?}", params.pow), "len": len, "epoch_len": [params.epoch_len.0, params.epoch_len.1],
         "diff_mode": format!("{:?}", params.diff_mode), "last_n": ccfg.last_n, "peers": npeers, "scripts": with_scripts, "fast": w.timer_fast});
-    let mut mon = Mon { out, msgs: 0 };
+    let mut mon = Mon { out, msgs: 0, req_start: Default::default() };
     let mut phases: Vec<String> = vec![];
     w.connect_all();
     let nphases = rng.range(1, 5);
@@ -116,9 +127,16 @@ pub fn scenario(seed: u64, k: u64, out: &Out) {
             let mut forked = if phases.iter().any(|p| p == "fork") { "after-fork".to_string() } else { "no-fork".to_string() };
             if code.starts_with("InvalidTotalDifficulty") {
                 // which header the client used as the start of the total-difficulty envelope
-                let tip = w.c().storage.get_tip_header().into_view();
+                // the start of the request this answer belongs to (the client takes the peer's previously proved header)
                 let m = &w.chains[net.main];
-                let on_main = tip.number() <= m.tip() && m.blocks[tip.number() as usize].hash() == tip.hash();
+                let banned_peer = w.bans[bans0].0;
+                let on_main = match mon.req_start.get(&banned_peer) {
+                    Some(h) => m.num_of(h).is_some(),
+                    None => {
+                        let tip = w.c().storage.get_tip_header().into_view();
+                        tip.number() <= m.tip() && m.blocks[tip.number() as usize].hash() == tip.hash()
+                    }
+                };
                 forked = format!("{}|{}", forked, if on_main { "start-on-peer-chain" } else { "start-on-abandoned-branch" });
             }
             out.violation("C05.R1", &format!("C05|ban|{}|{}", code, forked), json!({"scenario": desc, "phases": phases, "reason": reason, "trace": w.trace_vec()}), k);
